@@ -96,13 +96,30 @@ class C02(Prop):
             mx = rng.choice([0, 0, 60, 90, 150, rng.randrange(40, 200), rng.randrange(40, 200)])
             ops.append(['set_max', mx])
             meta.append(None)
-            if pname == 'auto':
+            auto_first_batch = pname == 'auto' and rng.random() < 0.35
+            if pname == 'auto' and not auto_first_batch:
                 # auto-detection settles on the first message: make it a well-formed 2.0 notification
                 ops.append(['receive', list(b'{"jsonrpc":"2.0","method":"hello"}')])
                 meta.append({'kind': 'single', 'isreq': False, 'id': None})
+            if auto_first_batch:
+                # ... or the first message is a batch of 2.0 requests with an invalid member that looks like 1.0 (a stray 1.0
+                # response, a "jsonrpc":"1.0" object) in front, in the middle or at the end: 2.0 is preferred
+                stray = rng.choice([{'jsonrpc': '1.0', 'method': 'old', 'params': [], 'id': 77}, {'result': 1, 'error': None, 'id': 78},
+                                    {'jsonrpc': '1.0'}])
+                ms = [member(rng, 'v2', 'req') for _ in range(rng.randrange(1, 4))]
+                ms.insert(rng.choice([0, 0, len(ms), rng.randrange(len(ms) + 1)]), stray)
+                ops.append(['receive', list(json.dumps(ms).encode())])
+                reqs = [m for m in ms if not invalid_for('v2', m) and m.get('id') is not None and 'id' in m]
+                nbad = sum(1 for m in ms if invalid_for('v2', m))
+                meta.append({'kind': 'batch', 'nreq': len(reqs), 'nbad': nbad, 'nnotif': len(ms) - len(reqs) - nbad, 'ids': [m['id'] for m in reqs], 'b': 0})
             nreq_total = 0
             pending = []      # (request index, id, batch number or None)
             bno = 0
+            if auto_first_batch:
+                for m in reqs:
+                    pending.append((nreq_total, m['id'], 0))
+                    nreq_total += 1
+                bno = 1
             for _ in range(rng.randrange(1, 4)):
                 if pname != 'v1' and rng.random() < 0.7:
                     kinds = [rng.choice(['req', 'req', 'req', 'notif', 'bad']) for _ in range(rng.randrange(1, 8))]
